@@ -103,12 +103,7 @@ Section Statements.
   Theorem C25_hypotheses_decided : forall f d,
     wf_fs_b f = true -> anchor_b rn f = true -> paths_ok_b d = true ->
     start_ok rn f /\ paths_ok d.
-  Proof.
-    intros f d A B C. split; [split|].
-    - exact (wf_fs_b_sound f A).
-    - exact (anchor_b_sound rn f B).
-    - exact (paths_ok_b_sound d C).
-  Qed.
+  Proof. exact (hyps_decided rn). Qed.
 End Statements.
 
 Check C25_untouched.
